@@ -83,6 +83,7 @@ type c13Round struct {
 	Whole  bool   `json:"whole,omitempty"` // nil Path: the whole document
 	Dst    string `json:"dst"`
 	Format string `json:"format"`
+	Pre    bool   `json:"pre,omitempty"` // the target file already exists with longer, unrelated content
 }
 
 type c13Export struct {
@@ -92,6 +93,7 @@ type c13Export struct {
 	Path    string `json:"path"`
 	ViaRef  bool   `json:"viaRef,omitempty"` // Path is read from the leaf `pref` of the document
 	BadDir  bool   `json:"badDir,omitempty"` // the file cannot be opened
+	Pre     bool   `json:"pre,omitempty"`    // the target file already exists with longer, unrelated content
 }
 
 type c13Env struct {
@@ -475,7 +477,7 @@ func c13Run(c *Ctx) {
 		gb := stdGen()
 		gb.PLeaf = 0.4
 		data := gb.Doc(r)
-		cr := c13Round{Data: data, Format: pick(r, []string{"yaml", "json"}), Dst: pick(r, []string{"imp", "imp.q", "n1.n2.n3"})}
+		cr := c13Round{Data: data, Format: pick(r, []string{"yaml", "json"}), Dst: pick(r, []string{"imp", "imp.q", "n1.n2.n3"}), Pre: r.Intn(2) == 0}
 		conts := c13ContPaths(data)
 		if len(conts) == 0 || r.Intn(3) == 0 {
 			cr.Whole = true
@@ -488,7 +490,7 @@ func c13Run(c *Ctx) {
 	for i := 0; i < c.N(900); i++ {
 		c.Tick()
 		data := g.Doc(r)
-		ce := c13Export{Data: data, Format: pick(r, formats), Path: c13Target(r, g, data)}
+		ce := c13Export{Data: data, Format: pick(r, formats), Path: c13Target(r, g, data), Pre: r.Intn(2) == 0}
 		switch r.Intn(8) {
 		case 0:
 			ce.NilPath = true
@@ -558,6 +560,7 @@ func c13Run(c *Ctx) {
 		for _, f := range formats {
 			for _, p := range []string{"absent", "leaf.below", "leaf", "num", "nul", "list", "elist", "list[0]", "cont", "econt", "cont.k", ""} {
 				c.Do("export", c13Export{Data: data, Format: f, Path: p})
+				c.Do("export", c13Export{Data: data, Format: f, Path: p, Pre: true})
 				c.Do("export", c13Export{Data: data, Format: f, Path: p, BadDir: true})
 			}
 			c.Do("export", c13Export{Data: data, Format: f, NilPath: true})
@@ -1277,6 +1280,10 @@ func c13Normalise(format string, v any) (any, error) {
 	return out, nil
 }
 
+// c13Stale is the previous content of an export target: long, and not valid YAML/JSON when
+// only its beginning is overwritten.
+var c13Stale = strings.Repeat("stale: {unterminated [previous, content\n", 200)
+
 func c13EvalRound(c *Ctx, raw []byte) {
 	var p c13Round
 	if err := json.Unmarshal(raw, &p); err != nil {
@@ -1300,6 +1307,12 @@ func c13EvalRound(c *Ctx, raw []byte) {
 	dir := c13TempDir(c)
 	defer os.RemoveAll(dir)
 	file := filepath.Join(dir, "out."+p.Format)
+	if p.Pre {
+		// the target file already exists and is longer than what will be written: an export
+		// must replace the file's content, not overwrite its beginning
+		_ = os.WriteFile(file, []byte(c13Stale), 0o644)
+		c.Dist("roundtrip:file-preexists")
+	}
 	gd := wireContainer(p.Data)
 	before := nodeWire(gd)
 	ex := &pipeline.ExportOp{File: &pipeline.ValOrRef{Val: file}, Format: pipeline.OutputFormat(p.Format)}
@@ -1356,6 +1369,9 @@ func c13EvalExport(c *Ctx, raw []byte) {
 	file := filepath.Join(dir, "out.dat")
 	if p.BadDir {
 		file = filepath.Join(dir, "no-such-dir", "out.dat")
+	} else if p.Pre {
+		_ = os.WriteFile(file, []byte(c13Stale), 0o644)
+		c.Dist("export:file-preexists")
 	}
 	gd := wireContainer(data)
 	before := nodeWire(gd)
@@ -1392,13 +1408,15 @@ func c13EvalExport(c *Ctx, raw []byte) {
 	c.Direct("export-does-not-change-data", canon(after) == canon(before), after)
 	content, rerr := os.ReadFile(file)
 	exists := rerr == nil
+	// opened: the export touched the file (a pre-existing target still holding its old content was not opened)
+	opened := exists && !(!p.BadDir && p.Pre && string(content) == c13Stale)
 	knownFmt := p.Format == "yaml" || p.Format == "json" || p.Format == "properties" || p.Format == "text"
 	if knownFmt && !p.BadDir && c13NodeCount(p.Data) >= 2 {
 		c.Nontrivial()
 	}
 	switch {
 	case !knownFmt:
-		c.Direct("export-unknown-format-is-error-before-any-file-is-opened", tag == "err" && !exists, map[string]any{"tag": tag, "file-exists": exists})
+		c.Direct("export-unknown-format-is-error-before-any-file-is-opened", tag == "err" && !opened, map[string]any{"tag": tag, "file-touched": opened})
 	case p.BadDir:
 		c.Direct("export-unopenable-file-is-error", tag == "err", tag)
 	case p.Format == "text":
@@ -1437,7 +1455,7 @@ func c13EvalExport(c *Ctx, raw []byte) {
 	}
 	// model: decision and what is handed to the encoder; the encoder itself is the real one
 	m, _ := c.Model("export", map[string]any{"data": data, "format": p.Format, "path": pathArg, "canOpen": !p.BadDir}).(map[string]any)
-	implObs := map[string]any{"err": tag == "err", "opened": exists}
+	implObs := map[string]any{"err": tag == "err", "opened": opened}
 	modelObs := map[string]any{"err": nil, "opened": nil}
 	if m != nil {
 		modelObs = map[string]any{"err": m["err"], "opened": m["opened"]}
@@ -1474,9 +1492,9 @@ func c13EvalExport(c *Ctx, raw []byte) {
 	md := c.Model("decision", map[string]any{"format": p.Format, "target": kindOf})
 	implDec := "?"
 	switch {
-	case tag == "err" && !exists && !p.BadDir:
+	case tag == "err" && !opened && !p.BadDir:
 		implDec = "errorBeforeOpen"
-	case tag == "err" && exists:
+	case tag == "err" && opened:
 		implDec = "errorAfterOpen"
 	case tag == "ok" && p.Format == "text" && kindOf == "leaf":
 		implDec = "writeLeafText"
